@@ -84,12 +84,16 @@ package certificate
 //@   }
 //@ }
 
+// Trailing independence: acceptance and the number of bytes consumed depend only
+// on the consumed prefix; the parsed value re-serialises to exactly that prefix
+// (lemma C01_ReadCertificate), so it does not depend on what follows either.
 //@ lemma C03_ReadCertificate_trailing(d1 []byte, d2 []byte, k int) {
 //@   assume(0 <= k && k <= len(d1) && k <= len(d2) && seqeq(d1[:k], d2[:k]))
 //@   c1, r1, e1 := ReadCertificate(d1)
 //@   c2, r2, e2 := ReadCertificate(d2)
 //@   if e1 == nil && len(d1)-len(r1) <= k {
-//@     assert(e2 == nil && len(d2)-len(r2) == len(d1)-len(r1) && seqeq(c1.Bytes(), c2.Bytes()))
+//@     assert(e2 == nil && len(d2)-len(r2) == len(d1)-len(r1))
+//@     assert(seqeq(CertWire(c1), d1[:len(d1)-len(r1)]) && seqeq(CertWire(c2), d2[:len(d1)-len(r1)]))
 //@   }
 //@ }
 
